@@ -74,6 +74,31 @@ Definition add_sym (s : nat) (t : tree) : tree := match t with T ss ks => T (s :
 Definition add_kids (new : list tree) (t : tree) : tree := match t with T ss ks => T ss (ks ++ new) end.
 
 (* ---- retarget_references(block, to_block, at_end) ---- *)
+(* a direct reference becomes indirect: the symbol joins the start or the end tree of its block *)
+Definition rt_step (acc : tree * tree * symtab) (s : nat) : tree * tree * symtab :=
+  let '(st, en, tab) := acc in
+  if snd (sym_get s tab) then (st, add_sym s en, sym_set s (None, true) tab)
+  else (add_sym s st, en, sym_set s (None, false) tab).
+
+Definition retarget_go (c : rc) (b t : nat) (at_end : bool) (direct : list nat) (have : option (tree * tree))
+  : result rc :=
+  if existsb (fun s => in_forest s (refs c)) direct then Err AssertErr
+      (* "symbol has both direct and indirect references" *)
+  else
+  let '(st0, en0) := match have with Some p => p | None => (empty_tree, empty_tree) end in
+  let r1 := refs_del b (refs c) in
+  let '(st1, en1, stab1) := fold_left rt_step direct (st0, en0, stab c) in
+  let r2 := match refs_get t r1 with
+            | Some _ => r1
+            | None => r1 ++ [(t, (empty_tree, empty_tree))]
+            end in
+  match refs_get t r2 with
+  | None => Err KeyErr
+  | Some (ts, te) =>
+      let pair := if at_end then (ts, add_kids [st1; en1] te) else (add_kids [st1; en1] ts, te) in
+      Ok (mk_rc (refs_set t pair r2) stab1)
+  end.
+
 Definition retarget (c : rc) (b : nat) (to_block : option nat) (at_end : bool) : result rc :=
   let direct := block_refs b (stab c) in
   match direct, refs_get b (refs c) with
@@ -81,29 +106,7 @@ Definition retarget (c : rc) (b : nat) (to_block : option nat) (at_end : bool) :
   | _, have =>
       match to_block with
       | None => Err AssertErr                           (* assert to_block *)
-      | Some t =>
-          if existsb (fun s => in_forest s (refs c)) direct then Err AssertErr
-              (* "symbol has both direct and indirect references" *)
-          else
-          let '(st0, en0) := match have with Some p => p | None => (empty_tree, empty_tree) end in
-          let r1 := refs_del b (refs c) in
-          (* direct references become indirect *)
-          let '(st1, en1, stab1) :=
-            fold_left (fun acc s =>
-                         let '(st, en, tab) := acc in
-                         if snd (sym_get s tab) then (st, add_sym s en, sym_set s (None, true) tab)
-                         else (add_sym s st, en, sym_set s (None, false) tab))
-                      direct (st0, en0, stab c) in
-          let r2 := match refs_get t r1 with
-                    | Some _ => r1
-                    | None => r1 ++ [(t, (empty_tree, empty_tree))]
-                    end in
-          match refs_get t r2 with
-          | None => Err KeyErr
-          | Some (ts, te) =>
-              let pair := if at_end then (ts, add_kids [st1; en1] te) else (add_kids [st1; en1] ts, te) in
-              Ok (mk_rc (refs_set t pair r2) stab1)
-          end
+      | Some t => retarget_go c b t at_end direct have
       end
   end.
 
@@ -142,23 +145,29 @@ Definition set_referent (c : rc) (s : nat) (r : option nat) (at_end : bool) : rc
    walk t s, for a non-root node t on the path: (t after the step, the node to hand to t's parent).
    Each node on the path loses its path child; the path child, if not empty, is re-attached
    to its grandparent ("move closer"), otherwise dropped ("remove nodes without children"). *)
+Section WalkKids.
+  Variable f : tree -> option (tree * list tree).
+  (* find the child on the path: (the other children, the child after its step, what it hands up) *)
+  Fixpoint walk_kids (l : list tree) : option (list tree * tree * list tree) :=
+    match l with
+    | [] => None
+    | k :: l' =>
+        match f k with
+        | Some (k', ups) => Some (l', k', ups)
+        | None => match walk_kids l' with
+                  | Some (rest, k', ups) => Some (k :: rest, k', ups)
+                  | None => None
+                  end
+        end
+    end.
+End WalkKids.
+
 Fixpoint walk (t : tree) (s : nat) : option (tree * list tree) :=
   match t with
   | T ss ks =>
       if mem s ss then Some (T (remove_nat s ss) ks, [])
       else
-        match (fix go (l : list tree) : option (list tree * tree * list tree) :=
-                 match l with
-                 | [] => None
-                 | k :: l' =>
-                     match walk k s with
-                     | Some (k', ups) => Some (l', k', ups)
-                     | None => match go l' with
-                               | Some (rest, k', ups) => Some (k :: rest, k', ups)
-                               | None => None
-                               end
-                     end
-                 end) ks with
+        match walk_kids (fun k => walk k s) ks with
         | None => None
         | Some (rest, k', ups) => Some (T ss (rest ++ ups), if is_empty k' then [] else [k'])
         end
